@@ -193,6 +193,16 @@ Theorem C16_compose_ens_table : forall (F : OF) (tol : F) (St : Type) meas zero_
 Proof. exact compose_ens_table. Qed.
 Print Assumptions C16_compose_ens_table.
 
+(* conditioning selects an order-preserving sub-grid: the increasing enumeration of the serial indices whose conditioned digits carry
+   the conditioning values IS k' |-> rowmajor (fill fixed (digits of k' in the free shape)) — NumPy's boolean-mask / np.ix_ selection
+   (translated code) and the model's slice indexed by the free multi-index are the same list, for every shape and assignment *)
+From QV.Proofs Require Import C16_Enumerate.
+Theorem C16_subgrid_enumeration : forall sh fixed, posn sh -> fixed_ok sh fixed ->
+  filter (fun k => matchp fixed (digitsn sh k)) (seq 0 (prodn sh)) =
+  map (fun k' => rowmajorn sh (fill fixed (digitsn (select (map is_none fixed) sh) k'))) (seq 0 (prodn (select (map is_none fixed) sh))).
+Proof. exact subgrid_enumeration. Qed.
+Print Assumptions C16_subgrid_enumeration.
+
 (* accepted, non-zero marginals and conditionals are entrywise non-negative and sum to 1 within the validation tolerance *)
 Theorem C16_marginalize_normalised : forall (F : OF) tol d rem d', kle F (c0 F) tol -> tol <> c0 F ->
   marginalize F tol d rem = MOk d' -> d_zero F d' = false -> normalised F tol d'.
